@@ -685,6 +685,22 @@ func (m *monitor) checkMutations(h *TxnHist, v *txnView, sig string) {
 			if mu.Op != e.op || string(mu.Value) != e.val {
 				m.fail("R9-wrong-mutation", sig, "txn #%d prewrites key %q as %v %q, its buffer implies %v %q", h.Prog.ID, k, mu.Op, mu.Value, e.op, e.val)
 			}
+			// the assertion the key's flags imply (none when the transaction has no assertion level)
+			wantA := kvrpcpb.Assertion_None
+			if h.Prog.AssertLevel != "" {
+				switch h.Asserted[k] {
+				case "exist":
+					wantA = kvrpcpb.Assertion_Exist
+				case "notexist":
+					wantA = kvrpcpb.Assertion_NotExist
+				}
+			}
+			if len(h.Asserted) > 0 {
+				m.hit("R9-assertion")
+			}
+			if mu.Assertion != wantA {
+				m.fail("R9-wrong-assertion", sig, "txn #%d prewrites key %q with assertion %v, its flags (level %q, flag %q) imply %v", h.Prog.ID, k, mu.Assertion, h.Prog.AssertLevel, h.Asserted[k], wantA)
+			}
 			if h.Prog.Pessimistic && len(req.PessimisticActions) == len(req.Mutations) {
 				_, locked := h.Locked[k]
 				act := req.PessimisticActions[i]
